@@ -370,6 +370,8 @@ LDATE_FORMS = ["dddd D MMMM YYYY", "ddd, D MMM YYYY", "MMMM D, YYYY", "D MMM YYY
 TIME_FORMS = [("HH{t}mm{t}ss", None), ("H{t}m{t}s", "sep"), ("hh{t}mm{t}ss A", None), ("h{t}mm{t}ss A", "sep"), ("HH{t}mm", "nosec")]
 FRACS = [("", 0), (".SSSSSS", 6), (".SSS", 3), (".S", 1), (",SSSSSS", 6), (" SSSSS", 5)]
 TZF = ["Z", "ZZ", "z", ""]
+DEFAULT_LOCALE_FORMATS = ["dddd D MMMM YYYY HH:mm:ss.SSSSSS Z", "ddd, D MMM YYYY HH:mm:ss.SSSSSS Z", "MMMM D, YYYY [at] HH:mm:ss.SSSSSS Z",
+                          "Do MMMM YYYY HH:mm:ss.SSSSSS Z", "YYYY MMMM DD HH:mm:ss.SSSSSS Z", "dddd, MMMM D YYYY, h:mm:ss.SSSSSS A Z"]
 
 
 def _roundtrip(M, r, localized):
@@ -414,12 +416,41 @@ def _roundtrip(M, r, localized):
     zname = getattr(x.tzinfo, "name", "")
     if tzf == "z" and zname.count("/") >= 2:
         zsig = "z:three-part-zone-name"
+    # half of the localized trips select the locale through the process-wide default (set_locale) instead of the
+    # locale= argument: the same format string is then parsed under changing defaults (history of configurations)
+    via_default = localized and r.random() < 0.5
+    if via_default:
+        # a small fixed set of formats, so that the SAME format string meets many default locales in one process
+        fmt = r.choice(DEFAULT_LOCALE_FORMATS)
+        nd = 6
+        us = x.microsecond
+        sec = x.second
+        want_fields = fields(x)[:5] + (sec, us)
+        tzf = "Z"
+        esc = "bracket" if "[" in fmt else "plain"
+        zsig = "Z"
+        if "Do" in fmt and not dig(D, "custom.ordinal"):
+            return
+        for tok, key in (("MMMM", "months.wide"), ("dddd", "days.wide"), ("MMM", "months.abbreviated"), ("ddd", "days.abbreviated")):
+            if tok in fmt:
+                vals = list(dig(D, "translations." + key).values())
+                if len(set(v.lower() for v in vals)) != len(vals):
+                    return
     try:
-        s = x.format(fmt, locale=loc)
-        tzarg = x.tzinfo if not tzf else P.UTC
-        y = P.from_format(s, fmt, tz=tzarg, locale=loc)
+        if via_default:
+            P.set_locale(loc)
+            try:
+                s = x.format(fmt)
+                tzarg = x.tzinfo if not tzf else P.UTC
+                y = P.from_format(s, fmt, tz=tzarg)
+            finally:
+                P.set_locale("en")
+        else:
+            s = x.format(fmt, locale=loc)
+            tzarg = x.tzinfo if not tzf else P.UTC
+            y = P.from_format(s, fmt, tz=tzarg, locale=loc)
     except Exception as e:  # noqa: BLE001
-        M.check(mon, False, f"C08/roundtrip:raised-{type(e).__name__}:{esc}:{zsig}" + (":localized" if localized else ""), "from_format(format(x)) raised",
+        M.check(mon, False, f"C08/roundtrip:raised-{type(e).__name__}:{esc}:{zsig}" + (":localized" if localized else "") + (":default-locale" if via_default else ""), "from_format(format(x)) raised",
                 fmt=fmt, value=x.isoformat(), locale=loc, exc=repr(e)[:160])
         return
     got = (fields(y), off_us(y) if y.tzinfo else None)
